@@ -574,7 +574,8 @@ fn exec_run(make_rt: impl FnOnce() -> Runtime, cfg: &RunCfg) -> J {
         json!({"ticks": c.ticks, "started": c.cycles_started, "completed": c.cycles_completed,
                "mark_inc": c.mark_increments, "sweep_inc": c.sweep_increments, "swept": c.objects_swept,
                "barrier": c.barrier_hits, "parked": c.parked, "live_checks": c.live_checks,
-               "reach_checks": c.reach_checks, "sched": format!("{:016x}", c.schedule_hash)}),
+               "reach_checks": c.reach_checks, "sched": format!("{:016x}", c.schedule_hash),
+               "dropped": [c.threads_dropped[0], c.threads_dropped[1], c.threads_dropped[2]]}),
     );
     if want_trace {
         out.insert("trace".into(), J::Array(trace));
@@ -991,18 +992,24 @@ fn job_lifecycle(job: &J, std: &Std) -> J {
     for k in ["done", "error", "cap", "dropped", "panic", "stuck"] {
         statuses.insert(k.to_string(), 0);
     }
+    // green threads dropped while their collector was idle / marking / sweeping, over all cycles
+    let mut drop_phase = [0u64; 3];
     // scratch the executor itself allocates per run (output strings, maps) is freed before sampling
     for i in 0..cycles {
         let spec = &histories[i % histories.len()];
         let p = prog.clone();
         let o = exec_run(move || Runtime::new(p), &RunCfg { spec, hosts: &hosts });
         *statuses.entry(o["status"].as_str().unwrap_or("").to_string()).or_insert(0) += 1;
+        for (ph, slot) in drop_phase.iter_mut().enumerate() {
+            *slot += o["gc"]["dropped"][ph].as_u64().unwrap_or(0);
+        }
         drop(o);
         live.push((LIVE_BYTES.load(Ordering::Relaxed), LIVE_BLOCKS.load(Ordering::Relaxed)));
     }
     drop(prog);
     res.insert("live".into(), J::Array(live.iter().map(|(b, n)| json!([b, n])).collect()));
     res.insert("statuses".into(), json!(statuses));
+    res.insert("drop_phase".into(), json!(drop_phase));
     J::Object(res)
 }
 
